@@ -527,4 +527,137 @@ Proof.
   apply Hf_ext_local; intros k'' Hk''. apply H; lia.
 Qed.
 
+
+(* ---- closed form: (x - B)^b = ((x - A) + AB)^b ---- *)
+(* binomial coefficients by Pascal's rule, computed in the field *)
+Fixpoint pasc (b k : nat) : F :=
+  match b, k with
+  | _, O => 1
+  | O, S _ => 0
+  | S b', S k' => pasc b' k' + pasc b' (S k')
+  end.
+Lemma pasc_0 b : pasc b 0 = 1. Proof. destruct b; reflexivity. Qed.
+Lemma pasc_SS b k : pasc (S b) (S k) = pasc b k + pasc b (S k). Proof. reflexivity. Qed.
+Lemma pasc_gt b : forall k, b < k -> pasc b k = 0.
+Proof. induction b as [|b IH]; intros [|k] H; try lia; [reflexivity|].
+  rewrite pasc_SS, !IH by lia. ring. Qed.
+
+Notation fpow := (FNum.fpow K).
+Notation Ssum := (sumn 0 (fadd K)).
+
+Lemma Ssum_shift n (f : nat -> F) : Ssum (S n) f = f 0%nat + Ssum n (fun k => f (S k)).
+Proof. induction n as [|n IH]; [cbn [sumn]; ring|].
+  change (Ssum (S (S n)) f) with (Ssum (S n) f + f (S n)). rewrite IH. cbn [sumn]. ring. Qed.
+Lemma Ssum_add n (f g : nat -> F) : Ssum n (fun k => f k + g k) = Ssum n f + Ssum n g.
+Proof. induction n as [|n IH]; cbn [sumn]; [ring|]. rewrite IH. ring. Qed.
+Lemma Ssum_scale n c (f : nat -> F) : Ssum n (fun k => c * f k) = c * Ssum n f.
+Proof. induction n as [|n IH]; cbn [sumn]; [ring|]. rewrite IH. ring. Qed.
+
+Definition Hbin (ab : F) (T : nat -> F) (b a : nat) : F :=
+  Ssum (S b) (fun k => pasc b k * fpow ab (b - k) * T (a + k)%nat).
+
+Theorem Hf_binomial ab T b : forall a, Hf ab T b a = Hbin ab T b a.
+Proof.
+  induction b as [|b IH]; intros a.
+  - unfold Hbin. cbn [Hf sumn pasc FNum.fpow Nat.sub]. rewrite Nat.add_0_r. ring.
+  - cbn [Hf]. rewrite (IH (S a)), (IH a). unfold Hbin.
+    set (A1 := Ssum (S b) (fun k => pasc b k * fpow ab (b - k) * T (S a + k)%nat)).
+    set (A2 := Ssum b (fun k => pasc b (S k) * fpow ab (b - S k) * T (a + S k)%nat)).
+    assert (E0 : Ssum (S b) (fun k => pasc b k * fpow ab (b - k) * T (a + k)%nat)
+                 = fpow ab b * T a + A2).
+    { rewrite (Ssum_shift b). rewrite pasc_0, Nat.add_0_r, Nat.sub_0_r. unfold A2. ring. }
+    assert (E1 : Ssum (S b) (fun k => pasc b (S k) * fpow ab (b - k) * T (S a + k)%nat) = ab * A2).
+    { change (Ssum (S b) (fun k => pasc b (S k) * fpow ab (b - k) * T (S a + k)%nat))
+        with (Ssum b (fun k => pasc b (S k) * fpow ab (b - k) * T (S a + k)%nat)
+              + pasc b (S b) * fpow ab (b - b) * T (S a + b)%nat).
+      rewrite (pasc_gt b (S b)) by lia. unfold A2. rewrite <- Ssum_scale.
+      rewrite (sumn_ext 0 (fadd K) b
+        (fun k => pasc b (S k) * fpow ab (b - k) * T (S a + k)%nat)
+        (fun k => ab * (pasc b (S k) * fpow ab (b - S k) * T (a + S k)%nat))).
+      - ring.
+      - intros k Hk. replace (b - k)%nat with (S (b - S k)) by lia.
+        replace (a + S k)%nat with (S a + k)%nat by lia. cbn [FNum.fpow]. ring. }
+    assert (E2 : Ssum (S (S b)) (fun k => pasc (S b) k * fpow ab (S b - k) * T (a + k)%nat)
+                 = fpow ab (S b) * T a
+                   + (A1 + Ssum (S b) (fun k => pasc b (S k) * fpow ab (b - k) * T (S a + k)%nat))).
+    { rewrite (Ssum_shift (S b)). rewrite pasc_0, Nat.add_0_r, Nat.sub_0_r.
+      unfold A1. rewrite <- Ssum_add. f_equal; [ring|].
+      apply sumn_ext. intros k Hk. rewrite pasc_SS.
+      replace (a + S k)%nat with (S a + k)%nat by lia.
+      replace (S b - S k)%nat with (b - k)%nat by lia. ring. }
+    rewrite E0, E2, E1. cbn [FNum.fpow]. ring.
+Qed.
+
+(* ---- the same transfer on polynomials in s ---- *)
+Fixpoint Hp (ab : F) (Pf : nat -> list F) (b a : nat) : list F :=
+  match b with O => Pf a | S b' => padd (Hp ab Pf b' (S a)) (pscale ab (Hp ab Pf b' a)) end.
+
+(* the two-centre polynomial of one axis: value at s = Gaussian moment with both factors *)
+Definition Pab (pa pc v ab : F) (a b : nat) : list F := Hp ab (Pc pa pc v) b a.
+
+Theorem Pab_eval pa pc v ab b : forall a s,
+  peval (Pab pa pc v ab a b) s
+  = S3 K (v * (1 - s)) (pa - s * pc) (pa + ab - s * pc) 0 0%nat 0%nat a b.
+Proof.
+  unfold Pab. induction b as [|b IH]; intros a s.
+  - cbn [Hp]. rewrite (proj1 (Pc_eval K Kf pa pc v a s)). reflexivity.
+  - cbn [Hp]. rewrite (peval_padd K Kf), (peval_pscale K Kf), (IH (S a)), (IH a).
+    rewrite (S3_Si K Kf), (S3_Sj K Kf). ring.
+Qed.
+
+(* contexts that are linear when seen through every Phi *)
+Definition PhiLin (C : list F -> list F) : Prop :=
+  (forall beta m P Q, Phi beta m (C (padd P Q)) = Phi beta m (C P) + Phi beta m (C Q)) /\
+  (forall beta m t P, Phi beta m (C (pscale t P)) = t * Phi beta m (C P)).
+
+Lemma PhiLin_id : PhiLin (fun P => P).
+Proof. split; intros; [apply (Phi_padd K Kf)|apply (Phi_pscale K Kf)]. Qed.
+Lemma PhiLin_pmul_l C Q : PhiLin C -> PhiLin (fun P => pmul (C P) Q).
+Proof.
+  intros [Ha Hs]. split; intros.
+  - rewrite !Phi_pmul, <- Phi_beta_add. apply Phi_ext. intros k. apply Ha.
+  - rewrite !Phi_pmul, <- Phi_beta_scale. apply Phi_ext. intros k. apply Hs.
+Qed.
+Lemma PhiLin_pmul_r C Q : PhiLin C -> PhiLin (fun P => pmul Q (C P)).
+Proof. intros [Ha Hs]. split; intros; rewrite !Phi_pmul; [apply Ha|apply Hs]. Qed.
+
+Lemma Hf_Hp C ab Pf beta m b : PhiLin C -> forall a,
+  Phi beta m (C (Hp ab Pf b a)) = Hf ab (fun a' => Phi beta m (C (Pf a'))) b a.
+Proof.
+  intros [Ha Hs]. induction b as [|b IH]; intros a; cbn [Hp Hf]; [reflexivity|].
+  rewrite Ha, Hs, (IH (S a)), (IH a). reflexivity.
+Qed.
+
+(* ---- composed statement for the cube ---- *)
+Section Cube.
+Variables (pax pcx pay pcy paz pcz v abx aby abz : F).
+
+Definition P3ab (ax ay az bx by_ bz : nat) : list F :=
+  pmul (pmul (Pab pax pcx v abx ax bx) (Pab pay pcy v aby ay by_)) (Pab paz pcz v abz az bz).
+
+Theorem P3ab_eval ax ay az bx by_ bz s :
+  peval (P3ab ax ay az bx by_ bz) s
+  = S3 K (v * (1 - s)) (pax - s * pcx) (pax + abx - s * pcx) 0 0%nat 0%nat ax bx
+  * S3 K (v * (1 - s)) (pay - s * pcy) (pay + aby - s * pcy) 0 0%nat 0%nat ay by_
+  * S3 K (v * (1 - s)) (paz - s * pcz) (paz + abz - s * pcz) 0 0%nat 0%nat az bz.
+Proof. unfold P3ab. rewrite !peval_pmul, !Pab_eval. reflexivity. Qed.
+
+(* transferring the [a|0] values Phi_0(P3) along the three axes gives Phi_0 of the two-centre product *)
+Theorem H3_of_Phi beta m bx by_ bz ax ay az :
+  H3 abx aby abz (fun x y z => Phi beta m (P3 pax pcx pay pcy paz pcz v x y z)) bx by_ bz ax ay az
+  = Phi beta m (P3ab ax ay az bx by_ bz).
+Proof.
+  unfold H3, P3ab, Pab, P3.
+  rewrite (Hf_Hp (fun P => pmul (pmul (Hp abx (Pc pax pcx v) bx ax) (Hp aby (Pc pay pcy v) by_ ay)) P))
+    by (apply PhiLin_pmul_r, PhiLin_id).
+  apply Hf_ext. intros z'.
+  rewrite (Hf_Hp (fun P => pmul (pmul (Hp abx (Pc pax pcx v) bx ax) P) (Pc paz pcz v z')))
+    by (apply PhiLin_pmul_l, PhiLin_pmul_r, PhiLin_id).
+  apply Hf_ext. intros y'.
+  rewrite (Hf_Hp (fun P => pmul (pmul P (Pc pay pcy v y')) (Pc paz pcz v z')))
+    by (apply PhiLin_pmul_l, PhiLin_pmul_l, PhiLin_id).
+  reflexivity.
+Qed.
+End Cube.
+
 End P.
